@@ -298,6 +298,20 @@ def search_layered(run):
                                              "layer_above": [l._index_above for l in li.layers]},
                            observed={"layer_at_depth": got, "index": float(li.index(z))}, expected=float(exp_above),
                            what="depth above the layer stack is dispatched to a layer / does not get the stack's index_above")
+        # scalar, list and array call forms agree everywhere, in particular exactly on the layer boundaries
+        zs = list(b) + [float(np.nextafter(x, -np.inf)) for x in b] + [float(np.nextafter(x, np.inf)) for x in b[1:]] \
+            + [run.rng.uniform(b[-1], b[0]) for _ in range(4)]
+        zs = [z_ for z_ in zs if b[-1] <= z_ <= b[0]]
+        sca = [float(li.index(z_)) for z_ in zs]
+        for form, got in (("ndarray", li.index(np.array(zs))), ("list", li.index(list(zs)))):
+            got = [float(x) for x in got]
+            if got != sca:
+                badz = [z_ for z_, a_, s_ in zip(zs, got, sca) if a_ != s_]
+                run.fail_input("layered-scalar-array", {"bounds": b, "indices": [float(l.n) for l in li.layers],
+                                                        "depths": badz, "form": form},
+                               observed=[a_ for a_, s_ in zip(got, sca) if a_ != s_],
+                               expected=[s_ for a_, s_ in zip(got, sca) if a_ != s_],
+                               what="LayeredIce.index(%s) != scalar evaluation at depth(s) %s" % (form, badz[:3]))
         for i, l in enumerate(li.layers):
             zi = 0.5 * (l.valid_range[0] + l.valid_range[1])
             if li.layer_at_depth(zi) is not l or float(li.index(zi)) != float(l.n):
